@@ -1,12 +1,12 @@
 (* Static tie for the geometry kernels of src/volatile_memory.rs: compute_offset,
    VolatileMemory::compute_end_offset, alignment, VolatileSlice::check_alignment, regenerated
    by rs2v (coq/Gen/Volatile.v), against the hand models of C01 (Impl/Volatile.v, errors with
-   payload) and C06 (Impl/CopyPlan.v, error classes only).  The generated code reports an error
+   payload), C06 (Impl/CopyPlan.v, error classes only) and C04 (Impl/VolMem.v, error classes).  The generated code reports an error
    as E "<Variant>" [payload sorted by field name]; [verr_gen] / [cp_abs] relate that to the
    model's own error types. *)
 From Coq Require Import String.
 From VM Require Import Prelude.MachInt Prelude.Outcome Prelude.Rs2v.
-From VM Require Impl.Volatile Impl.CopyPlan Gen.Volatile.
+From VM Require Impl.Volatile Impl.CopyPlan Impl.VolMem Gen.Volatile.
 
 (* ---------------------------------------------------------------- C01: Impl/Volatile.v *)
 Definition verr_gen (e : Impl.Volatile.verr) : rerr :=
@@ -81,5 +81,41 @@ Lemma geneq_CopyPlan_check_alignment : forall m s al,
       (omap Some (Impl.CopyPlan.check_alignment m s al)).
 Proof.
   intros. unfold Gen.Volatile.check_alignment, Impl.CopyPlan.check_alignment.
+  oeq_cases.
+Qed.
+
+(* ---------------------------------------------------------------- C04: Impl/VolMem.v *)
+Definition vm_abs {A} (r : rres A) : option (Impl.VolMem.result A) :=
+  match r with
+  | ROk a => Some (Impl.VolMem.Ok a)
+  | RErr (E v _) =>
+      if String.eqb v "Overflow" then Some (Impl.VolMem.Err Impl.VolMem.EOverflow)
+      else if String.eqb v "OutOfBounds" then Some (Impl.VolMem.Err Impl.VolMem.EOutOfBounds)
+      else if String.eqb v "Misaligned" then Some (Impl.VolMem.Err Impl.VolMem.EMisaligned)
+      else None
+  end.
+
+Lemma geneq_VolMem_compute_offset : forall base offset,
+  vm_abs (Gen.Volatile.compute_offset base offset) = Some (Impl.VolMem.compute_offset base offset).
+Proof.
+  intros. unfold Gen.Volatile.compute_offset, Impl.VolMem.compute_offset.
+  destruct (checked_add base offset); reflexivity.
+Qed.
+
+Lemma geneq_VolMem_compute_end_offset : forall len base offset,
+  vm_abs (Gen.Volatile.compute_end_offset len base offset)
+  = Some (Impl.VolMem.compute_end_offset len base offset).
+Proof.
+  intros. unfold Gen.Volatile.compute_end_offset, Impl.VolMem.compute_end_offset,
+    Gen.Volatile.compute_offset, Impl.VolMem.compute_offset.
+  destruct (checked_add base offset) as [e|]; [destruct (len <? e)|]; reflexivity.
+Qed.
+
+(* the model's slice address is an offset into a heap based at hb *)
+Lemma geneq_VolMem_check_alignment : forall m hb s al,
+  oeq (omap vm_abs (Gen.Volatile.check_alignment m (hb + Impl.VolMem.vs_addr s) al))
+      (omap Some (Impl.VolMem.vs_check_alignment m hb s al)).
+Proof.
+  intros. unfold Gen.Volatile.check_alignment, Impl.VolMem.vs_check_alignment.
   oeq_cases.
 Qed.
